@@ -166,6 +166,20 @@ class MinimalHandle:
         return self._b.getvalue()
 
 
+def also_minimal(out, spec, fh, open_fn, model, requests, tag, limit: int = 4 << 20):
+    """If the case asks for it (spec["via_minimal"]) and the image is small, open the same bytes once more through a
+    MinimalHandle and compare a few reads: the readers get by with read / seek / tell."""
+    how = spec.get("via_minimal")
+    if not how or out.failures or fh.size > limit:
+        return
+    out.cls("via-minimal-handle")
+    v, err = lib(open_fn, MinimalHandle(fh.materialize(limit), seek_returns_none=how == "seek-none"))
+    if err:
+        out.fail(err.sig(tag + "-minimal-open"), f"open through a minimal file object raised {err.describe()}")
+        return
+    check_reads(out, v, model, requests[:4], tag + "-minimal")
+
+
 def gzip_handle(fh, limit: int = 4 << 20):
     """The content of an in-memory image behind gzip.open() on a real file: a handle whose fileno() exists but belongs to other
     bytes (the compressed file), that cannot seek from the end and whose reads are a stream.  -> (handle, cleanup) or (None, None)
